@@ -678,7 +678,21 @@ func c15RunMixed(c *core.Ctx, k c15Case) *c15Out {
 	}
 
 	// traffic, then silence, then the ender
-	time.Sleep(time.Duration(k.TrafficMs) * time.Millisecond)
+	if k.Kind == "stall" {
+		// the ender lands when the stalled direction has been written completely (every queue on the way
+		// is as full as it gets), or after TrafficMs if the writer is parked by back-pressure (UDP)
+		for _, wk := range workers {
+			if wk.what == "W" && wk.end.sess == 0 && wk.end.side != k.StallSide {
+				select {
+				case <-wk.done:
+					time.Sleep(200 * time.Millisecond)
+				case <-time.After(time.Duration(k.TrafficMs) * time.Millisecond):
+				}
+			}
+		}
+	} else {
+		time.Sleep(time.Duration(k.TrafficMs) * time.Millisecond)
+	}
 	if k.IdleMs > 0 {
 		quiet.Store(true)
 		time.Sleep(time.Duration(k.IdleMs) * time.Millisecond)
@@ -1261,7 +1275,7 @@ func c15GenStall(r *rand.Rand) c15Case {
 		k.Ender, k.EnderSess, k.Sessions, k.Multiplex = "sclose-"+k.StallSide, 0, 2+r.Intn(2), 20
 	}
 	k.Closers = 1 + r.Intn(3)
-	k.TrafficMs = 1500 + r.Intn(1000)
+	k.TrafficMs = 6000 + r.Intn(2000)
 	k.Chunk = 1400
 	k.ServerFirst = r.Intn(2) == 0
 	if k.UDP && r.Intn(2) == 0 {
@@ -1414,7 +1428,7 @@ func init() {
 					}
 				}
 				bgClose.Wait(30 * time.Second)
-				nl := c.N(4, 16)
+				nl := c.N(2, 16)
 				for i := 0; i < nl; i++ {
 					k := c15GenLeak(c.Rand, i)
 					if i == 0 {
